@@ -40,6 +40,7 @@ pub fn map_op(op: &Op, f: &dyn Fn(&P) -> P, slot_off: u8) -> Op {
         Op::EnvNonUtf8(p) => Op::EnvNonUtf8(f(p)),
         Op::EnvDanglingSymlink(p) => Op::EnvDanglingSymlink(f(p)),
         Op::EnvRemoveBehind(p) => Op::EnvRemoveBehind(f(p)),
+        Op::EnvSpecial(p, k) => Op::EnvSpecial(f(p), *k),
     }
 }
 
